@@ -232,7 +232,9 @@ inline void thread_monitor::notify() {
 }
 
 inline void thread_monitor::wait() {
+    __TBB_VERIF_POINT(vp_worker_sleep, this, 0);
     my_sema.P();
+    __TBB_VERIF_POINT(vp_worker_wake, this, 0);
     // memory_order_seq_cst is required here to be ordered with
     // further load checking shutdown state
     my_notified.store(false, std::memory_order_seq_cst);
